@@ -664,12 +664,13 @@ func readServiceInfo(r io.Reader) (s ServiceInfo, err error) {
 		if err != nil {
 			return b, fmt.Errorf("read slice size: %s", err)
 		}
-		b = make([]string, size)
+		b = make([]string, 0)
 		for i := 0; i < int(size); i++ {
-			b[i], err = basic.ReadString(r)
+			v, err := basic.ReadString(r)
 			if err != nil {
 				return b, fmt.Errorf("read slice value: %s", err)
 			}
+			b = append(b, v)
 		}
 		return b, nil
 	}(); err != nil {
